@@ -332,8 +332,9 @@ func (s *handlerWriter) Write(buf []byte) (n int, err error) {
 	if s.l.Enabled(s.lvl) {
 		var pc uintptr
 		if s.capturePC {
-			// skip [runtime.Callers, s.Write, Logger.Output, log.Print]
-			pc = getpc(4, s.extraFrames)
+			// skip [runtime.Callers, getpc, s.Write, Logger.output, log.Print]
+			// plus the frames the logger was told to ignore (WithSkip, SetSkip)
+			pc = getpc(4, s.extraFrames+s.l.Skip())
 		}
 		if h, ok := s.l.(LogLoggerAware); ok {
 			n, err = h.WriteInternal(context.Background(), s.lvl, pc, buf)
